@@ -42,6 +42,10 @@ register("C05", "TLA+ property layer (transparency clauses) + code-shaped cache 
          "TLC checks TransparentOut/TransparentJac, AtMostOnce, CallerCannotCorrupt, SimpleKeepsLast, ReopenSame and the coherence of the code-shaped model on every execute/linearize/mutate-in-place/set-diff/clear/reopen history of the bounded models per (cache kind, tolerance, hash collision), and refutes the pre-fix storage rules on every run; every transition tour is executed on a real discipline (several inputs/outputs, self-coupled variable, dense and sparse Jacobians, caller arrays edited in place) with SimpleCache, MemoryFullCache (shared/local), HDF5Cache and no cache; returns, entries and counters are compared with TLC's states and the recorded returns are judged clause by clause by a trace specification (which admissible entry is served is a relation).",
          "Trusted: TLC; 1-D lattice on which the tolerance relation is decided exactly; hash collisions are injected by rebinding hash_data inside the harness worker process (test double). Switching cache kind mid-history and cache API reads (last_entry, update, +) are not modelled.",
          "DESIGN.md section 4 C05, 9.4")
+register("C06", "TLA+ exact dyadic model (BigNat limbs) of Jacobi / Gauss-Seidel sweeps, relaxation, residual scalings and stop test, MDAChain staging, second executions and warm start, checked by TLC; recorded executions of MDAJacobi/MDAGaussSeidel/MDAChain validated step by step by MDATrace.tla; all MDA classes x accelerations x relaxations judged by MDAReport.tla against the exact solution and error bounds computed by TLC",
+         "TLC checks NilExact/NilStop (nilpotent family: exact fixed point after N sweeps, for every order and graph), APriori/APost error bounds (contractive family), ChainEqualsMonolithic and Budget on enumerated linear coupled systems (2-3 disciplines, sizes 1-2, weak head/tail, two groups, self-coupled), and refutes the pre-fix Gauss-Seidel rule on every run; every discipline execution of real un-accelerated MDAs is a trace event whose inputs/outputs must equal the specification's exact dyadic iterates, and the final values and re-execution residuals of all 7 factory MDA classes (+ MDAChain with 5 inner classes) x 6 accelerations x relaxations x scalings are judged by TLC against Exact within Amp*tol*S.",
+         "Trusted: TLC; linear systems on the exact slice (22-bit envelope limits the number of exact sweeps); Newton-like classes and acceleration methods are checked by result only; D17 and D0603 (Aitken/secant with relaxation, Aitken on nilpotent systems) are recorded findings (numerical-method limitations).",
+         "DESIGN.md section 4 C06, 9.4")
 register("C07", "TLA+ exact integer model of the coupled-derivative assembly (minimal couplings by two-way traversal with merged groups and caches, block layout, -I residual diagonal, direct/adjoint solves, split by variable) vs an independent closed form, checked by TLC; instances and request histories replayed on real MDAs / JacobianAssembly",
          "TLC checks IFT (the closed form satisfies the implicit-function equations), AssembledIsClosedForm, DirectEqAdjoint, SubsetIndependence, StructuralZeros, Shapes, CacheCoherent and NoRaise on every enumerated unimodular system (9 topologies incl. weak head/tail, self-coupled, two groups in sequence; sizes 1-2) and request history, and refutes the pre-fix rules on every run; each instance and history is replayed on real MDA classes and JacobianAssembly.total_derivatives over mode x matrix type x LU x solvers x Jacobian kinds and every block equals TLC's integer block to 1e-9 with its shape.",
          "Trusted: TLC; unimodular residual Jacobians (integer inverse, condition number small). Disciplines with residual/state variables, conditioning and iterative-solver tolerances are outside the slice.",
